@@ -110,7 +110,7 @@ def w_basic(ctx, rng, i):
     order = int(rng.integers(1, 9))
     which = "lpf" if i % 2 == 0 else "bpf"
     cut = float(rng.uniform(0.01, 0.45)) * fs
-    n = int(rng.choice([padlen(order) + 2, 32, 33, 100, 257, 1024, 4096]))
+    n = core.long_or(rng, i, int(rng.choice([padlen(order) + 2, 32, 33, 100, 257, 1024, 4096])), every=32)
     n = max(n, padlen(order) + 2)
     n_pol = 1 if which == "lpf" else int(rng.integers(1, 3))
     noise = bool(rng.integers(2))
